@@ -340,11 +340,33 @@ func runNewKeypair(r *vlib.Run, d *vlib.Driver, c kcase, cs *cosets) {
 	tapeMu.Unlock()
 	r.Case("newkeypair "+c.Tape[:16]+fmt.Sprint(c.Ell), true)
 	r.Count("newkeypair", fmt.Sprintf("elligator=%v attempts=%d", c.Ell, tr.pos/32))
+	if c.Tag != "tape" {
+		r.Count("newkeypair-steered", c.Tag)
+	}
 	want := "exhausted"
 	if err == nil {
 		rs := "-"
 		if kp.HasElligator() {
 			rs = vlib.Hex(kp.Representative().Bytes()[:])
+			// S: whatever the random stream delivered, a returned keypair is a genuine one: the public key
+			// is the dirty base-mult of the returned private key (it has a representative), neither value
+			// is all-zero, and DH with the returned public key agrees with the clean key of the private key
+			priv := kp.Private().Bytes()
+			dpub, _, dok := ntor.VerifScalarBaseMult(priv, kp.Representative().Bytes()[31])
+			var clean, peer, peerPub, s1, s2, s3 [32]byte
+			copy(peer[:], tape)
+			peer[5] ^= 0x5a
+			curve25519.ScalarBaseMult(&clean, priv)
+			curve25519.ScalarBaseMult(&peerPub, &peer)
+			curve25519.ScalarMult(&s1, &peer, kp.Public().Bytes()) //nolint:staticcheck
+			curve25519.ScalarMult(&s2, &peer, &clean)              //nolint:staticcheck
+			curve25519.ScalarMult(&s3, priv, &peerPub)             //nolint:staticcheck
+			zero := [32]byte{}
+			if !dok || dpub != *kp.Public().Bytes() || *kp.Public().Bytes() == zero || *kp.Representative().Bytes() == zero || s1 != s2 || s1 != s3 {
+				r.Violate("newkeypair-returns-unusable-key", "impl-oracle",
+					fmt.Sprintf("NewKeypair(true) after %d draws returned no error with private %x, public %x, representative %x: private key has a representative: %v, its dirty public key %x; X25519(peer, pub)=%x, X25519(peer, clean pub)=%x, X25519(priv, peer pub)=%x",
+						tr.pos/32, priv[:], kp.Public().Bytes()[:], kp.Representative().Bytes()[:], dok, dpub, s1, s2, s3), c)
+			}
 			// S: the stored public key is the decoding of the stored representative
 			if *kp.Representative().ToPublic() != *kp.Public() {
 				r.Violate("newkeypair-repr-not-pub", "impl-oracle",
@@ -360,8 +382,10 @@ func runNewKeypair(r *vlib.Run, d *vlib.Driver, c kcase, cs *cosets) {
 							tape[tr.pos-32:tr.pos], dg, kp.Private().Bytes()[:], kp.Representative().Bytes()[31], dg[63]&0xc0), c)
 				}
 			}
-			cs.add(cosetOf(kp.Representative().Bytes()[:]), true)
-			cs.preimage("newkeypair", kp.Public().Bytes()[:], kp.Representative().Bytes()[:])
+			cs.add(cosetOf(kp.Representative().Bytes()[:]), c.Tag == "tape")
+			if c.Tag == "tape" {
+				cs.preimage("newkeypair", kp.Public().Bytes()[:], kp.Representative().Bytes()[:])
+			}
 		}
 		want = fmt.Sprintf("%s %s %s %d", vlib.Hex(kp.Private().Bytes()[:]), vlib.Hex(kp.Public().Bytes()[:]), rs, tr.pos)
 	}
@@ -419,6 +443,18 @@ func structured32() (vals [][]byte, tags []string) {
 		add(new(big.Int).Sub(sub(two256, 1), new(big.Int).Lsh(big.NewInt(1), uint(i))), "single-zero-bit")
 	}
 	return
+}
+
+func perm(rng *vlib.Rng, n int) []int {
+	p := make([]int, n)
+	for i := range p {
+		p[i] = i
+	}
+	for i := n - 1; i > 0; i-- {
+		j := rng.Intn(i + 1)
+		p[i], p[j] = p[j], p[i]
+	}
+	return p
 }
 
 func generate(r *vlib.Run) []kcase {
@@ -482,6 +518,38 @@ func generate(r *vlib.Run) []kcase {
 		cs = append(cs, kcase{Kind: "newkeypair", Tape: h(rng.Bytes(32 * 40)), Ell: i%5 != 0, Tag: "tape"})
 	}
 	cs = append(cs, kcase{Kind: "newkeypair", Tape: h(rng.Bytes(31)), Ell: true, Tag: "short-tape"})
+
+	// steered tapes: k draws whose SHA-512-derived key has NO representative, then one that has — the
+	// rejection loop must keep drawing however long the run of rejections is (judged with the real code)
+	var rejected, accepted [][]byte
+	for len(rejected) < 260 || len(accepted) < 40 {
+		blk := rng.Bytes(32)
+		dg := sha512.Sum512(blk)
+		if _, _, ok := ntor.VerifScalarBaseMult(arr32(dg[:32]), dg[63]); ok {
+			accepted = append(accepted, blk)
+		} else {
+			rejected = append(rejected, blk)
+		}
+	}
+	for _, k := range []int{0, 1, 2, 5, 63, 64, 65, 100, 200} {
+		for j := 0; j < r.Scale(3, 20); j++ {
+			var tape []byte
+			for _, ix := range perm(rng, len(rejected))[:k] {
+				tape = append(tape, rejected[ix]...)
+			}
+			tape = append(tape, accepted[rng.Intn(len(accepted))]...)
+			tape = append(tape, rng.Bytes(64)...)
+			cs = append(cs, kcase{Kind: "newkeypair", Tape: h(tape), Ell: true, Tag: fmt.Sprintf("rejections=%d", k)})
+		}
+	}
+	// only rejected draws: the tape runs out, NewKeypair must report the error, not a keypair
+	{
+		var tape []byte
+		for _, ix := range perm(rng, len(rejected))[:70] {
+			tape = append(tape, rejected[ix]...)
+		}
+		cs = append(cs, kcase{Kind: "newkeypair", Tape: h(tape), Ell: true, Tag: "rejections-only"})
+	}
 	return cs
 }
 
